@@ -59,6 +59,10 @@ def gen_params(rng):
         "with_pl": rng.random() < 0.3,
         "unsorted_gt": rng.choice([0.0, 0.3]),
     }
+    if p["with_pl"]:
+        # VCF genotypes that disagree with the reads, so that --distrust-genotypes really changes calls (het->hom, hom->het)
+        p["gt_noise"] = rng.choice([(0.0, 0.0), (0.25, 0.0)])
+        p["depth"] = rng.choice([8, 20])
     opts = {"reference": "FASTA", "tag": rng.choice(["PS", "HP"]), "only_snvs": rng.random() < 0.25, "prephase": rng.choice([None, None, "PS", "HP"])}
     if rng.random() < 0.4 and not ped:
         opts["samples"] = rng.sample(samples, rng.randint(1, len(samples)))
@@ -79,12 +83,29 @@ def run_one(rng, counters):
         # prephase with tag X and running with the other tag mixes encodings, which whatshap's own reader refuses only when
         # reading phases; the writer path is what is judged here
         gvcf.hostilize(rng, sim.doc, prephase=opts["prephase"], allow_missing=not opts.get("ped"))
+        if p["n_chrom"] >= 2 and rng.random() < 0.25:
+            # a contig on which no record is usable (only multi-ALT / ALT-less records; or only indels with --only-snvs)
+            which = rng.choice(sim.chroms[1:] if rng.random() < 0.7 else sim.chroms)
+            for r in sim.doc.records:
+                if r["chrom"] != which:
+                    continue
+                if opts["only_snvs"] and rng.random() < 0.5:
+                    r["ref"], r["alts"], r["kind"] = r["ref"][0] + "ACG", [r["ref"][0]], "del"
+                elif rng.random() < 0.5:
+                    r["alts"], r["kind"] = [], "noalt"
+                else:
+                    r["alts"], r["kind"] = [x for x in "ACGT" if x != r["ref"][0]][:2], "multi"
+                    r["ref"] = r["ref"][0]
+                for call in r["calls"]:
+                    if r["kind"] == "noalt":
+                        call["GT"] = "0/0"
+            opts["unusable_contig"] = which
         sim.doc.write(sim.vcf, compress=bool(p["vcf_compress"]))
         desc = {"params": p, "options": opts, "vcf": sim.doc.text() if len(sim.doc.records) < 60 else "(%d records)" % len(sim.doc.records)}
         if not vcfdiff.htslib_roundtrips(sim.vcf, os.path.join(tmp, "rt.vcf")):
             counters["skipped_htslib_cannot_copy"] = counters.get("skipped_htslib_cannot_copy", 0) + 1
             return [], False, desc
-        ro = {k: v for k, v in opts.items() if k not in ("ped", "prephase")}
+        ro = {k: v for k, v in opts.items() if k not in ("ped", "prephase", "unusable_contig")}
         ro["reference"] = sim.fasta
         if opts.get("ped"):
             ro["ped"] = sim.ped
